@@ -360,6 +360,31 @@ pub fn search(tier: &str, seed: u64, s: &mut Search) {
                 }
             }
         }
+        // the bounding box of a group is the union of the boxes of its children THAT HAVE ONE: an empty group (kept for
+        // its id), alone or nested, and a group of such groups contribute nothing - a bounding-box definition on the
+        // parent resolves exactly as without them
+        if i % 5 == 3 {
+            let (cx, cy, r) = (rng.range(60, 140), rng.range(50, 110), rng.range(10, 30));
+            let empties = *rng.pick(&[r#"<g id="e"/>"#, r#"<g id="e1"><g id="e2"/></g>"#, r#"<g id="e" transform="translate(7 9)"/>"#, r#"<g id="e" opacity="0.5"/>"#]);
+            let (def, attr) = match rng.below(4) {
+                0 => (r#"<clipPath id="d" clipPathUnits="objectBoundingBox"><rect x="0" y="0" width="0.5" height="1"/></clipPath>"#.to_string(), r#"clip-path="url(#d)""#),
+                1 => (r#"<mask id="d" maskContentUnits="objectBoundingBox" x="0" y="0" width="1" height="0.6"><rect width="1" height="1" fill="white"/></mask>"#.to_string(), r#"mask="url(#d)""#),
+                2 => (r#"<filter id="d" x="0" y="0" width="0.7" height="1"><feOffset dx="0"/></filter>"#.to_string(), r#"filter="url(#d)""#),
+                _ => (r#"<linearGradient id="d"><stop offset="0" stop-color="red"/><stop offset="1" stop-color="blue"/></linearGradient>"#.to_string(), r#"fill="url(#d)""#),
+            };
+            let pos = rng.below(2);
+            let shape = format!(r#"<circle cx="{cx}" cy="{cy}" r="{r}"/><rect x="{}" y="{}" width="{r}" height="{r}"/>"#, cx + 5, cy - 5);
+            let with = if pos == 0 { format!("{empties}{shape}") } else { format!("{shape}{empties}") };
+            let ea = format!("{HDR}<defs>{def}</defs><g {attr}>{with}</g></svg>");
+            let eb = format!("{HDR}<defs>{def}</defs><g {attr}>{shape}</g></svg>");
+            if let (Some((_, qa)), Some((_, qb))) = (render(&ea, &o), render(&eb, &o)) {
+                s.case("empty-group-sibling", &ea, qa.data().chunks(4).any(|p| p[3] != 0));
+                let (ok, why) = crate::rend::similar(&qa, &qb, 4);
+                if !ok {
+                    s.finding("oracle:C18:empty-group-changes-the-bounding-box", &format!("an empty group next to the shapes changes how the bounding-box definition on their parent resolves: {}", why), &ea);
+                }
+            }
+        }
         // a pattern with a viewBox: its content lives in viewBox coordinates whatever patternContentUnits says,
         // so the objectBoundingBox spelling must resolve exactly like the userSpaceOnUse spelling
         if i % 5 == 2 {
